@@ -717,7 +717,9 @@ class Interp:
             if o["exit"] == "panic":
                 raise Cannot("loop body may panic at %s" % T.loc(n))
             skip = o["exit"] in ("fall", "continue")
-            if skip and o["effects"]:
+            # calls recorded while the element is tested (`if a.is_available(el) {..}`) are the predicate of the search, like the
+            # closure of `find`; anything else done to a skipped element is an effect the search idiom does not have
+            if skip and any(e[0] != "call" for e in o["effects"]):
                 raise Cannot("loop at %s has effects on elements it skips" % T.loc(n))
             seqs.append((list(o["decisions"].items()), skip))
         if not any(sk for _, sk in seqs) or all(sk for _, sk in seqs):
@@ -1166,6 +1168,62 @@ def _iter_find(I, a, n, env):
     return Sym("find(%s, %s)" % (show(a[0]), canon_pred(I, a[1])), n.get("ty"))
 
 
+def _slice_split_first(I, a, n, env):
+    """v.split_first(): None iff v is empty, else Some((v[0], v[1..])) - the same decision as v.is_empty()."""
+    v = a[0]
+    if isinstance(v, VecV):
+        if v.items and v.base is None:
+            return Variant("Some", [Tuple([v.items[0], VecV(v.items[1:])])])
+        if not v.items and v.base is None:
+            return Variant("None")
+        if not v.items and I.truth(Sym("is_empty(%s)" % show(v.base), "bool")):
+            return Variant("None")
+        return Variant("Some", [Tuple([Sym("%s[0]" % show(v)), Sym("%s[1..]" % show(v))])])
+    return Sym("%s.split_first()" % show(v), n.get("ty"))
+
+
+def _iter_find_map(I, a, n, env):
+    """it.find_map(|x| cond(x).then(|| f(x)))  ==  it.find(|x| cond(x)).map(|x| f(x)): the closure is explored on a fresh
+    element; the paths that yield Some(..) give the predicate, their value (with the element substituted) the result."""
+    clo = a[1]
+    if not isinstance(clo, Closure) or len(clo.node["params"]) != 1:
+        return Sym("find_map(%s, %s)" % (show(a[0]), show(clo)), n.get("ty"))
+    sub = Interp(I.P, inline=I.inline, models=I.extra_models)
+
+    def run(J):
+        env2 = dict(clo.env)
+        if not J.match_pat(clo.node["params"][0]["pat"], Sym("$e"), env2):
+            raise Cannot("find_map closure parameter")
+        try:
+            v = J.ev(clo.node["body"], env2)
+        except _Return as r:
+            v = r.v
+        return J.open_option(v)
+    outs = sub.explore(run)
+    somes = [o for o in outs if isinstance(o["value"], Variant) and o["value"].name == "Some"]
+    if not somes or len(somes) == len(outs) or any(o["exit"] != "fall" for o in outs) or any("$e" not in k for o in outs for k in o["decisions"]):
+        raise Cannot("find_map closure is not `condition on the element => Some(value)`")
+    if len({show(o["value"].args[0]) for o in somes}) != 1:
+        raise Cannot("find_map yields different values on different paths")
+    pred = "{%s}" % " | ".join(sorted(" & ".join("%s%s" % ("" if v is True else "!" if v is False else str(v) + ":", k) for k, v in o["decisions"].items()) for o in somes))
+    found = I.open_option(Sym("find(%s, %s)" % (show(a[0]), pred)))
+    if found.name != "Some":
+        return Variant("None")
+    # evaluate the closure once more on the found element, with the predicate's atoms implied
+    elem = found.args[0]
+    if len(somes) == 1:
+        for k, v in somes[0]["decisions"].items():
+            k2, v2 = _subst_key(k, v, "$e", elem.term)
+            I.implied.setdefault(k2, v2)
+    return I.open_option(I.apply(clo, [elem]))
+
+
+def _bool_then(I, a, n, env):
+    if I.truth(a[0]):
+        return Variant("Some", [I.apply(a[1], []) if n["name"] == "then" else a[1]])
+    return Variant("None")
+
+
 def _iter_any(I, a, n, env):
     return Sym("any(%s, %s)" % (show(a[0]), canon_pred(I, a[1])), "bool")
 
@@ -1279,6 +1337,21 @@ def _vec_extend(I, a, n, env):
     return UNIT
 
 
+def _vec_append(I, a, n, env):
+    """v.append(&mut w): all items of w move to the end of v (w is left empty)."""
+    v, w = a[0], a[1]
+    I.effects.append(("extend", show_place(n["recv"]), w if not isinstance(w, VecV) else VecV(list(w.items), base=w.base), n))
+    if isinstance(v, VecV):
+        if isinstance(w, VecV) and w.base is None:
+            v.items.extend(w.items)
+        else:
+            v.items.append(Variant("..spread", [w if not isinstance(w, VecV) else VecV(list(w.items), base=w.base)]))
+    if isinstance(w, VecV):
+        del w.items[:]
+        w.base = None
+    return UNIT
+
+
 def show_place(n):
     return T.render(T.peel_ref(n))
 
@@ -1304,6 +1377,7 @@ MODELS = {
     "std::option::Option::unwrap_or_default": _opt_unwrap_or_default,
     "alloc::fmt::format": _format,
     "std::io::_print": _print,
+    "core::slice::split_first": _slice_split_first, "std::slice::split_first": _slice_split_first,
     "std::slice::join": _slice_join, "core::slice::join": _slice_join, "alloc::slice::join": _slice_join,
     "std::ops::Try::branch": _try_branch,
     "core::ops::Try::branch": _try_branch,
@@ -1319,11 +1393,14 @@ MODELS = {
     "std::result::Result::ok": _res_ok,
     "std::result::Result::map_err": _res_map_err,
     "std::result::Result::or": _res_or,
+    "std::primitive::bool::then": _bool_then, "core::bool::then": _bool_then, "bool::then": _bool_then,
+    "std::primitive::bool::then_some": _bool_then, "core::bool::then_some": _bool_then, "bool::then_some": _bool_then,
     "std::convert::From::from": _from_bool,
     "std::iter::Iterator::position": _iter_position,
     "std::iter::Iterator::zip": _iter_zip,
     "std::collections::HashMap::get": _map_get,
     "std::collections::HashSet::contains": _set_contains,
+    "std::vec::Vec::append": _vec_append,
     "std::vec::Vec::new": _vec_new,
     "std::vec::Vec::with_capacity": _vec_new,          # the capacity hint is never observable
     "std::ops::Range::contains": _range_contains,
@@ -1357,6 +1434,7 @@ MODELS = {
 
 SUFFIX_MODELS = [
     ("::Iterator::find", _iter_find),
+    ("::Iterator::find_map", _iter_find_map),
     ("::Iterator::any", _iter_any),
     ("::Iterator::all", _iter_all),
     ("::Extend::extend", _vec_extend),
